@@ -301,20 +301,38 @@ func vpH_c05_range_rename() {
 	m := vpMkMap(n)
 	model := vpAbs(m)
 	start := len(model)
+	seen := make([]bool, len(model)) // per model entry: was it passed to the callback?
 	visits := 0
 	m.Range(func(k, v int) error {
 		visits++
 		i := vpFind(model, k)
 		vpAssert(i >= 0 && model[i].v == v, "Range callback sees a currently live entry")
+		if i >= 0 {
+			vpAssert(!seen[i], "Range passes no entry to the callback twice")
+			seen[i] = true
+		}
 		if vpBool() {
 			k2 := vpInt(0, n+1)
 			v2 := vpInt(0, 3)
 			m.Replace(k, k2, v2)
-			model = vpModelReplace(model, k, k2, v2)
+			// the model and the seen flags follow the rename
+			next := vpModelReplace(model, k, k2, v2)
+			nseen := make([]bool, 0, len(next))
+			for j, p := range model {
+				if j == i {
+					nseen = append(nseen, true)
+				} else if p.k != k2 {
+					nseen = append(nseen, seen[j])
+				}
+			}
+			model, seen = next, nseen
 		}
 		return nil
 	})
 	vpAssert(visits <= start, "Range never visits more entries than were live at the start")
+	for j := range model {
+		vpAssert(j < len(seen) && seen[j], "Range passes every surviving entry to the callback (renames in the callback do not cut the iteration short)")
+	}
 	vpAssert(vpRI(m), "rename-in-Range: representation invariant holds afterwards")
 	vpAssert(vpEqPairs(vpAbs(m), model), "rename-in-Range: abstract state equals model")
 	vpCheckObservers(m, model, vpInt(0, n+1))
